@@ -17,7 +17,7 @@ CHECKS = {
          "Decides the name-table and key-agreement clauses (necessary conditions of the round trip); the behaviour of go-ucfg / yaml.v2 on concrete documents is third-party run-time behaviour and is not claimed.",
          "Trusted: go/types, go/ssa, tag-key conventions of go-ucfg, yaml.v2 and encoding/json. Not covered: number widths, validate tags, concrete documents.",
          "DESIGN.md section 4, C14"),
- "C08": ("other", "SSA value-flow chain followed backwards from the installation call through helper functions: seccomp(2) arg 3 <- SockFprog{Len: len(S), Filter: &S[0]} <- S = element-wise conversion (counted-loop abstraction: every index once, unconditional body, field-for-field) of exactly the slice returned by bpf.Assemble <- Policy.Assemble of filter.Policy; wrapper parameters reach the raw syscall through conversions only; when LoadFilter is split into helpers/closures the same chain is decided on the loader's event traces (engine E8: path enumeration with fallible-call forks and path-specific value following)",
+ "C08": ("other", "SSA value-flow chain followed backwards from the installation call through helper functions: seccomp(2) arg 3 <- SockFprog{Len: len(S), Filter: &S[0]} <- S = element-wise conversion (counted-loop abstraction: every index once, unconditional body, field-for-field) of exactly the slice returned by bpf.Assemble <- Policy.Assemble of filter.Policy; wrapper parameters reach the raw syscall through conversions only; when LoadFilter is split into helpers/closures the same chain is decided on the loader's event traces (engine E8: path enumeration with fallible-call forks and path-specific value following); plus `requires`: the rules of C01-C06 (the compiled program's decisions) are run on the same loaded program and a violation of any of them is reported as a violation of C08",
          "Program-identity clause only (second sentence of the property). The kernel's decisions after the load are run-time behaviour: not applicable to static analysis and not claimed.",
          "Trusted: go/ssa, SYS_SECCOMP oracle, bpf.Assemble maps one instruction to one raw instruction.",
          "DESIGN.md section 4, C08"),
@@ -33,7 +33,7 @@ CHECKS = {
          "Holds on every path and therefore under every goroutine schedule (thread pinning is a structural fact); kernel acceptance is trusted.",
          "Trusted: go/ssa dominators, runtime.LockOSThread semantics, prctl(2) argument contract.",
          "DESIGN.md section 4, C11"),
- "C15": ("other", "dominance rules on the no-return-pruned CFG of cmd/sandbox.main: process start dominated by the success edges of the parser and of LoadFilter; every failure region ends in os.Exit(non-zero) without a process start; value-origin of Filter.Policy; TSYNC in the literal",
+ "C15": ("other", "dominance rules on the no-return-pruned CFG of cmd/sandbox.main: process start dominated by the success edges of the parser and of LoadFilter; every failure region ends in os.Exit(non-zero) without a process start; value-origin of Filter.Policy; TSYNC in the literal; plus `requires`: the rules of C07 (invalid policies are rejected), C09 (a refused load is an error) and C08 (with C01-C06) are run on the same loaded program and a violation of any of them is reported as a violation of C15",
          "All paths through main, including each failure edge; that the target observes exactly the policy's decisions is C01-C08 plus the kernel and is not claimed.",
          "Trusted: go/ssa, os.Exit/log.Fatal do not return, enumerated process-start functions of os/exec, os, syscall.",
          "DESIGN.md section 4, C15"),
@@ -45,7 +45,7 @@ CHECKS = {
          "Decides which file states any crash point or disassembler failure can leave under the trusted name from the shape of the writer (all paths).",
          "Trusted: go/ssa dominators, atomic rename within a directory, exec.Cmd.Run error contract. Not covered: directory fsync durability (not in the statement).",
          "DESIGN.md section 4, C17"),
- "C18": ("other", "abstract interpretation of the profiler's list handling (engine E7): every string collection is mapped to a set expression over the base sets F, BL, AL, ARCH by summarising element-wise loops (any spelling) under the membership tests on each path, helpers are followed, `len(flag) > 0` joins are resolved; the result is compared with the specified expression by a 16-row truth table; duplicate-freeness, name validity and sortedness are attributes of the abstract value; typed AST of the profile literal, parsed text/template, tag/key agreement, single-YAML-document rule",
+ "C18": ("other", "abstract interpretation of the profiler's list handling (engine E7): every string collection is mapped to a set expression over the base sets F, BL, AL, ARCH by summarising element-wise loops (any spelling) under the membership tests on each path, helpers are followed, `len(flag) > 0` joins are resolved; the result is compared with the specified expression by a 16-row truth table; duplicate-freeness, name validity and sortedness are attributes of the abstract value; typed AST of the profile literal, parsed text/template, tag/key agreement, single-YAML-document rule; plus `requires`: the rules of C14 (configuration path) and C01 (allow-list semantics) are run on the same loaded program",
          "Decides the first sentence of the property exactly (set equation for all inputs with disjoint flag sets, sorted, duplicate-free, valid names) and, for the second sentence, the document layout / keys / single-document necessary conditions; how go-ucfg and yaml.v2 parse a concrete document is third-party run-time behaviour and is not claimed.",
          "Trusted: go/ssa, sort.Strings, text/template/parse, yaml.v2 key conventions and marker-free Marshal output; relies on C12 (injective tables) and C16 (Name = table[Num]). A construct the interpreter does not model makes the obligation undecided (fails).",
          "DESIGN.md section 4, C18"),
